@@ -366,6 +366,8 @@ func c08SolveShort(prefix string, k int) ([]byte, bool) {
 }
 
 func runC08(c *mc.Ctx) {
+	cases, short := c08Cases(c)
+	c.Note("checksum_valid_strings_with_fewer_than_8_symbols", short)
 	c.Note("step_hook", hookStepReset != nil)
 	c.Rule("each entry point that interprets external data is called on exhaustively enumerated input families (all short strings over parser-relevant alphabets, checksum-valid degenerate CashAddr strings found by a GF(2) solve, every truncation / single-byte substitution / count-field replacement of honest transactions and blocks, filter-load geometries x items x transactions, merkle-block messages, serialized GCS filters with declared N up to 2^32, JSON documents of depth <= 3) under three oracles: no panic, deterministic step count of the steps-instrumented build below 20000+200*len^2, heap bytes allocated below 2 MiB + 256*len; non-trivial = inputs that pass the outer validation layer")
 	c.Assume("time and allocation inside dependencies (bchd/wire, bchd/txscript, math/big, OpenBazaar/jsonpb) are measured for allocation but not for steps (they are not instrumented)")
@@ -376,6 +378,107 @@ func runC08(c *mc.Ctx) {
 		lim.Cur, lim.Max = 24<<30, 24<<30
 		syscall.Setrlimit(syscall.RLIMIT_AS, &lim)
 	}
+	c.Space("calls (all families)", int64(len(cases)))
+	fam := map[string]int{}
+	for _, cs := range cases {
+		fam[cs.Family]++
+	}
+	c.Note("cases_per_family", fam)
+	c.ParFor(int64(len(cases)), func(w *mc.W, i int64) {
+		w.State()
+		c08Eval(w, cases[i])
+	})
+	c.Sample("call", cases[10])
+	c.Sample("call", cases[len(cases)-1])
+}
+
+func symbolsString(sym []byte) string {
+	var sb strings.Builder
+	for _, s := range sym {
+		sb.WriteByte(ref.CashCharset[s&31])
+	}
+	return sb.String()
+}
+
+func c08HonestTxs() []*wire.MsgTx {
+	var out []*wire.MsgTx
+	t1 := wire.NewMsgTx(1)
+	o := wire.OutPoint{Hash: chainhash.Hash{1, 2, 3}, Index: 1}
+	t1.AddTxIn(wire.NewTxIn(&o, []byte{0x51, 0x52}))
+	t1.AddTxOut(wire.NewTxOut(1000, []byte{0x76, 0xa9, 0x14, 1, 2, 3, 4, 5, 6, 7, 8, 9, 10, 11, 12, 13, 14, 15, 16, 17, 18, 19, 20, 0x88, 0xac}, wire.TokenData{}))
+	out = append(out, t1)
+	t2 := wire.NewMsgTx(2)
+	t2.AddTxIn(wire.NewTxIn(&o, nil))
+	o2 := wire.OutPoint{Hash: chainhash.Hash{9}, Index: 0xffffffff}
+	t2.AddTxIn(wire.NewTxIn(&o2, []byte{0x00}))
+	t2.AddTxOut(wire.NewTxOut(0, nil, wire.TokenData{}))
+	t2.AddTxOut(wire.NewTxOut(1, []byte{0x6a}, wire.TokenData{}))
+	t2.LockTime = 7
+	out = append(out, t2)
+	// a transaction carrying token data on an output, taken from a round trip through wire
+	t3 := wire.NewMsgTx(2)
+	t3.AddTxIn(wire.NewTxIn(&o, []byte{0x51}))
+	// token prefix 0xef + 32-byte category + bitfield 0x10 (fungible amount) + amount 1, then script
+	script := append([]byte{0xef}, bytes.Repeat([]byte{0xcc}, 32)...)
+	script = append(script, 0x10, 0x01, 0x51)
+	t3.AddTxOut(&wire.TxOut{Value: 5, PkScript: script})
+	var b bytes.Buffer
+	t3.Serialize(&b)
+	var back wire.MsgTx
+	if err := back.Deserialize(bytes.NewReader(b.Bytes())); err == nil {
+		out = append(out, &back)
+	} else {
+		out = append(out, t3)
+	}
+	return out
+}
+
+func c08HonestBlocks(txs []*wire.MsgTx) []*wire.MsgBlock {
+	b1 := wire.NewMsgBlock(fixedHeader(1, &chainhash.Hash{1}, &chainhash.Hash{2}, 3, 4))
+	b1.AddTransaction(txs[0])
+	b1.AddTransaction(txs[1])
+	b2 := wire.NewMsgBlock(fixedHeader(1, &chainhash.Hash{1}, &chainhash.Hash{2}, 3, 4))
+	for _, t := range txs {
+		b2.AddTransaction(t)
+	}
+	return []*wire.MsgBlock{b1, b2}
+}
+
+// all JSON values of the given depth over a small atom alphabet, as the value of keys "hash"/"x"
+func c08JSONDocs(depth int) []string {
+	atoms := []string{`"ab"`, `"zz"`, `"` + strings.Repeat("0f", 32) + `"`, `1`, `true`, `null`, `{}`, `[]`}
+	vals := map[int][]string{0: atoms}
+	for d := 1; d <= depth; d++ {
+		prev := vals[d-1]
+		if len(prev) > 40 {
+			// keep the level finite: every atom plus the structured values of the previous level that
+			// contain a string (the rewriting only looks at strings, arrays and objects)
+			var keep []string
+			for _, p := range prev {
+				if len(keep) < 40 && (strings.Contains(p, `"ab"`) || strings.Contains(p, "[") || len(p) < 6) {
+					keep = append(keep, p)
+				}
+			}
+			prev = keep
+		}
+		var cur []string
+		cur = append(cur, atoms...)
+		for _, a := range prev {
+			cur = append(cur, "["+a+"]", `{"hash":`+a+`}`, `{"x":`+a+`}`)
+			for _, b := range prev[:min(len(prev), 10)] {
+				cur = append(cur, "["+a+","+b+"]", `{"hash":`+a+`,"x":`+b+`}`)
+			}
+		}
+		vals[d] = cur
+	}
+	docs := append([]string{}, vals[depth]...)
+	docs = append(docs, ``, `{`, `[`, `"`, `{"hash":`, hex.EncodeToString([]byte("x")), strings.Repeat("[", 200)+strings.Repeat("]", 200))
+	return docs
+}
+
+// c08Cases builds the complete, ordered case list of the tier (also used to attribute a killed
+// worker to the input it was running).
+func c08Cases(c *mc.Ctx) ([]c08Case, int) {
 	var cases []c08Case
 	add := func(cs ...c08Case) { cases = append(cases, cs...) }
 
@@ -439,7 +542,6 @@ func runC08(c *mc.Ctx) {
 			}
 		}
 	}
-	c.Note("checksum_valid_strings_with_fewer_than_8_symbols", short)
 
 	// 2. the string spaces of C05/C06/C07 under the panic/step/alloc oracles (structure-aware part)
 	{
@@ -586,100 +688,15 @@ func runC08(c *mc.Ctx) {
 		add(c08Case{Family: "jsonpb", Text: doc})
 	}
 
-	c.Space("calls (all families)", int64(len(cases)))
-	fam := map[string]int{}
-	for _, cs := range cases {
-		fam[cs.Family]++
-	}
-	c.Note("cases_per_family", fam)
-	c.ParFor(int64(len(cases)), func(w *mc.W, i int64) {
-		w.State()
-		c08Eval(w, cases[i])
-	})
-	c.Sample("call", cases[10])
-	c.Sample("call", cases[len(cases)-1])
+	return cases, short
 }
 
-func symbolsString(sym []byte) string {
-	var sb strings.Builder
-	for _, s := range sym {
-		sb.WriteByte(ref.CashCharset[s&31])
-	}
-	return sb.String()
-}
-
-func c08HonestTxs() []*wire.MsgTx {
-	var out []*wire.MsgTx
-	t1 := wire.NewMsgTx(1)
-	o := wire.OutPoint{Hash: chainhash.Hash{1, 2, 3}, Index: 1}
-	t1.AddTxIn(wire.NewTxIn(&o, []byte{0x51, 0x52}))
-	t1.AddTxOut(wire.NewTxOut(1000, []byte{0x76, 0xa9, 0x14, 1, 2, 3, 4, 5, 6, 7, 8, 9, 10, 11, 12, 13, 14, 15, 16, 17, 18, 19, 20, 0x88, 0xac}, wire.TokenData{}))
-	out = append(out, t1)
-	t2 := wire.NewMsgTx(2)
-	t2.AddTxIn(wire.NewTxIn(&o, nil))
-	o2 := wire.OutPoint{Hash: chainhash.Hash{9}, Index: 0xffffffff}
-	t2.AddTxIn(wire.NewTxIn(&o2, []byte{0x00}))
-	t2.AddTxOut(wire.NewTxOut(0, nil, wire.TokenData{}))
-	t2.AddTxOut(wire.NewTxOut(1, []byte{0x6a}, wire.TokenData{}))
-	t2.LockTime = 7
-	out = append(out, t2)
-	// a transaction carrying token data on an output, taken from a round trip through wire
-	t3 := wire.NewMsgTx(2)
-	t3.AddTxIn(wire.NewTxIn(&o, []byte{0x51}))
-	// token prefix 0xef + 32-byte category + bitfield 0x10 (fungible amount) + amount 1, then script
-	script := append([]byte{0xef}, bytes.Repeat([]byte{0xcc}, 32)...)
-	script = append(script, 0x10, 0x01, 0x51)
-	t3.AddTxOut(&wire.TxOut{Value: 5, PkScript: script})
-	var b bytes.Buffer
-	t3.Serialize(&b)
-	var back wire.MsgTx
-	if err := back.Deserialize(bytes.NewReader(b.Bytes())); err == nil {
-		out = append(out, &back)
-	} else {
-		out = append(out, t3)
-	}
-	return out
-}
-
-func c08HonestBlocks(txs []*wire.MsgTx) []*wire.MsgBlock {
-	b1 := wire.NewMsgBlock(fixedHeader(1, &chainhash.Hash{1}, &chainhash.Hash{2}, 3, 4))
-	b1.AddTransaction(txs[0])
-	b1.AddTransaction(txs[1])
-	b2 := wire.NewMsgBlock(fixedHeader(1, &chainhash.Hash{1}, &chainhash.Hash{2}, 3, 4))
-	for _, t := range txs {
-		b2.AddTransaction(t)
-	}
-	return []*wire.MsgBlock{b1, b2}
-}
-
-// all JSON values of the given depth over a small atom alphabet, as the value of keys "hash"/"x"
-func c08JSONDocs(depth int) []string {
-	atoms := []string{`"ab"`, `"zz"`, `"` + strings.Repeat("0f", 32) + `"`, `1`, `true`, `null`, `{}`, `[]`}
-	vals := map[int][]string{0: atoms}
-	for d := 1; d <= depth; d++ {
-		prev := vals[d-1]
-		if len(prev) > 40 {
-			// keep the level finite: every atom plus the structured values of the previous level that
-			// contain a string (the rewriting only looks at strings, arrays and objects)
-			var keep []string
-			for _, p := range prev {
-				if len(keep) < 40 && (strings.Contains(p, `"ab"`) || strings.Contains(p, "[") || len(p) < 6) {
-					keep = append(keep, p)
-				}
-			}
-			prev = keep
+func init() {
+	Registry["C08"].Lookup = func(c *mc.Ctx, seq, idx int64) (string, any) {
+		cases, _ := c08Cases(c)
+		if idx < 0 || idx >= int64(len(cases)) {
+			return "unknown", map[string]int64{"index": idx}
 		}
-		var cur []string
-		cur = append(cur, atoms...)
-		for _, a := range prev {
-			cur = append(cur, "["+a+"]", `{"hash":`+a+`}`, `{"x":`+a+`}`)
-			for _, b := range prev[:min(len(prev), 10)] {
-				cur = append(cur, "["+a+","+b+"]", `{"hash":`+a+`,"x":`+b+`}`)
-			}
-		}
-		vals[d] = cur
+		return cases[idx].Family, cases[idx]
 	}
-	docs := append([]string{}, vals[depth]...)
-	docs = append(docs, ``, `{`, `[`, `"`, `{"hash":`, hex.EncodeToString([]byte("x")), strings.Repeat("[", 200)+strings.Repeat("]", 200))
-	return docs
 }
